@@ -20,6 +20,13 @@ IDX_ut_set := 9
 REPO_HDRS := $(wildcard $(REPO)/inc/cappuccino/*.hpp)
 SRC_HDRS := $(wildcard src/*.hpp src/*.inc)
 
+# Content-based staleness: the binaries depend on a stamp that is touched whenever the hash of the
+# library headers and of the harness sources changes - independent of file modification times (a file
+# restored with an old mtime must still trigger a rebuild).
+STAMP := $(B)/repo_stamp
+HASH := $(shell cat $(sort $(REPO_HDRS)) $(sort $(wildcard src/*)) 2>/dev/null | sha256sum | cut -d' ' -f1)$(BLACKBOX)
+$(shell mkdir -p $(B); if [ "$$(cat $(B)/repo_hash 2>/dev/null)" != "$(HASH)" ]; then echo "$(HASH)" > $(B)/repo_hash; touch $(STAMP); fi)
+
 PLAIN_BINS := $(foreach k,$(KINDS),$(B)/seqmc_$(k)_plain)
 SAN_BINS := $(foreach k,$(KINDS),$(B)/seqmc_$(k)_san)
 E2A_BINS := $(foreach k,$(KINDS),$(B)/schedmc_$(k)_asan)
@@ -36,21 +43,21 @@ $(B)/sched.o: src/vsched.c src/vsched.h
 	@mkdir -p $(B)
 	gcc -O2 -g -fPIC -Wall -c src/vsched.c -o $@
 
-$(B)/schedmc_%_asan: src/schedmc.cpp $(B)/sched.o $(SRC_HDRS) $(REPO_HDRS)
+$(B)/schedmc_%_asan: src/schedmc.cpp $(B)/sched.o $(SRC_HDRS) $(REPO_HDRS) $(STAMP)
 	$(CXX) $(COMMON) $(E2ASAN) -DVF_CK=$(IDX_$*) src/schedmc.cpp $(B)/sched.o -ldl -o $@
 
-$(B)/schedmc_%_tsan: src/schedmc.cpp $(B)/sched.o $(SRC_HDRS) $(REPO_HDRS)
+$(B)/schedmc_%_tsan: src/schedmc.cpp $(B)/sched.o $(SRC_HDRS) $(REPO_HDRS) $(STAMP)
 	$(CXX) $(COMMON) $(E2TSAN) -DVF_CK=$(IDX_$*) src/schedmc.cpp $(B)/sched.o -ldl -o $@
 
 setup: all
 plain: $(PLAIN_BINS)
 san: $(SAN_BINS)
 
-$(B)/seqmc_%_plain: src/seqmc.cpp $(SRC_HDRS) $(REPO_HDRS)
+$(B)/seqmc_%_plain: src/seqmc.cpp $(SRC_HDRS) $(REPO_HDRS) $(STAMP)
 	@mkdir -p $(B)
 	$(CXX) $(COMMON) $(PLAIN) -DVF_CK=$(IDX_$*) src/seqmc.cpp -o $@
 
-$(B)/seqmc_%_san: src/seqmc.cpp $(SRC_HDRS) $(REPO_HDRS)
+$(B)/seqmc_%_san: src/seqmc.cpp $(SRC_HDRS) $(REPO_HDRS) $(STAMP)
 	@mkdir -p $(B)
 	$(CXX) $(COMMON) $(SAN) -DVF_CK=$(IDX_$*) src/seqmc.cpp -o $@
 
